@@ -426,6 +426,10 @@ func c11ParserWiring(r *Run) {
 		return true
 	})
 	if ts == nil {
+		// the distinction is made in a helper: decide on the paths of the wiring function
+		if c11ParserWiringSSA(r, pm, f) {
+			return
+		}
 		r.Bad("R5", f.Name(), "no type switch", w.Pos(f.Decl.Pos()), "the wiring must distinguish the node kinds")
 		return
 	}
